@@ -38,7 +38,7 @@ LIB = [  # (source under REPO/src, object name, extra flags)
 FLAVORS = ["MEMB", "MB", "QSBR", "BP"]
 WRAPS = ["pthread_create", "pthread_join", "pthread_exit", "pthread_mutex_lock", "pthread_mutex_trylock", "pthread_mutex_unlock", "pthread_cond_wait", "pthread_cond_signal", "pthread_cond_broadcast",
          "syscall", "poll", "usleep", "sleep", "sched_yield", "fork", "malloc", "calloc", "realloc", "free",
-         "posix_memalign", "sched_getcpu", "sched_setaffinity", "open", "mremap", "pthread_sigmask"]
+         "posix_memalign", "sched_getcpu", "sched_setaffinity", "open", "mremap", "mmap", "munmap", "pthread_sigmask"]
 
 
 def scen_units():
